@@ -3,7 +3,7 @@
 # Rust harness against /repo's current working tree.  Everything lands under /verif/build.
 set -e
 cd "$(dirname "$0")"
-export CARGO_NET_OFFLINE=true CARGO_TARGET_DIR=/verif/build/cargo
+export CARGO_NET_OFFLINE=true CARGO_TARGET_DIR="$(pwd)/build/cargo"
 mkdir -p build evidence replays
 python3 -c "import sys; sys.path.insert(0, \"lib\"); import framework; framework.ensure_makefile()"
 ( cd coq && timeout 7200 make -j16 2>&1 | grep -v '^WARNING conda' | tail -5 )
